@@ -238,8 +238,10 @@ pub fn run(rep: &mut Report) {
 
     match tier {
         Tier::Quick => {
-            gen_sections::<P16E1>(rep, 250_000, 150_000, 150_000);
-            gen_sections::<P32E2>(rep, 400_000, 250_000, 250_000);
+            gen_sections::<P16E1>(rep, 600_000, 400_000, 400_000);
+            gen_sections::<P32E2>(rep, 1_500_000, 1_000_000, 1_000_000);
+            let off = rep.cfg.seed % 8;
+            rep.lattice("P16E1 every 8th of the 2^32 pairs (offset = seed mod 8) x 4 ops (fast oracle)", 1 << 29, move |i, l| { let v = i * 8 + off; pair_fast::<P16E1>(v >> 16, v & 0xffff, l) });
         }
         Tier::Thorough => {
             gen_sections::<P16E1>(rep, 2_000_000, 1_000_000, 1_000_000);
@@ -248,9 +250,9 @@ pub fn run(rep: &mut Report) {
         }
     }
     // P32 extreme-regime lattice: every pair of patterns whose regime run is >= R
-    let lat = extreme_lattice(32, if tier == Tier::Quick { 23 } else { 19 });
+    let lat = extreme_lattice(32, if tier == Tier::Quick { 21 } else { 19 });
     let k = lat.len() as u64;
-    rep.lattice(&format!("P32E2 all pairs of the {} patterns with regime run >= {} (fast oracle)", k, if tier == Tier::Quick { 23 } else { 19 }), k * k, |i, l| pair_fast::<P32E2>(lat[(i / k) as usize], lat[(i % k) as usize], l));
+    rep.lattice(&format!("P32E2 all pairs of the {} patterns with regime run >= {} (fast oracle)", k, if tier == Tier::Quick { 21 } else { 19 }), k * k, |i, l| pair_fast::<P32E2>(lat[(i / k) as usize], lat[(i % k) as usize], l));
     // sparse-fraction lattice: every (regime, exponent) head with <= 2 fraction bits set
     let sp = sparse_lattice(32, 2);
     let sp: Vec<u64> = if tier == Tier::Quick {
